@@ -202,3 +202,29 @@ M("listener_no_containment", ["C07"], "bus listener lets exceptions from frame h
    "        except ZeroDivisionError as e:\n            # Exceptions in any callbaks should not affect CAN processing\n            logger.error(str(e))"))
 M("tp21_hold_rearms_forever", ["C07"], "hold CTS disables the send deadline",
   ("j1939/j1939_21.py", "                self._snd_buffer[buffer_hash]['deadline'] = time.time() + self.Timeout.Th\n", "                self._snd_buffer[buffer_hash]['deadline'] = 0\n"))
+
+M("tp22_segments_off_by_one_mod60", ["C02", "C03"], "FD segment count one too many when len % 60 == 0",
+  ("j1939/j1939_22.py", "num_segments = int(message_size / self.DataLength.TP ) + ((message_size % self.DataLength.TP ) != 0)", "num_segments = int(message_size / self.DataLength.TP ) + 1"))
+M("tp22_rcv_key_without_session", ["C02"], "FD receive/send buffers keyed without the session number",
+  ("j1939/j1939_22.py", "        return ((session_num & 0xF) << 16) | ((src_address & 0xFF) << 8) | (dest_address & 0xFF)", "        return ((src_address & 0xFF) << 8) | (dest_address & 0xFF)"))
+M("tp22_eoms_releases_own_session", ["C02", "C10"], "FD: EOM status handler releases an originator session number (D1 partially reverted)",
+  ("j1939/j1939_22.py", "            del self._rcv_buffer[buffer_hash]\n\n        elif control_byte == self.TpControlType.EOM_ACK:", "            del self._rcv_buffer[buffer_hash]\n            self._J1939_22__put_rts_cts_session(session_num & 7)\n\n        elif control_byte == self.TpControlType.EOM_ACK:"))
+M("tp22_dt_truncate_59", ["C02", "C03"], "FD data segment carries 59 bytes only when message is long",
+  ("j1939/j1939_22.py", "        self._rcv_buffer[buffer_hash]['data'].extend(data[4:])\n", "        self._rcv_buffer[buffer_hash]['data'].extend(data[4:] if segment_num != 300 else data[4:63])\n"))
+
+M("mpg_fit_test_off", ["C11"], "multi-PG fit test ignores the 4-byte header",
+  ("j1939/j1939_22.py", "elif (self._multi_pg_snd_buffer[hash]['fill_level'] <= (self.DataLength.TP - data_length)):", "elif (self._multi_pg_snd_buffer[hash]['fill_level'] <= (64 - data_length)):"))
+M("mpg_no_wakeup", ["C11"], "no job thread wake-up for a new multi-PG deadline (D14 reverted)",
+  ("j1939/j1939_22.py", "                # the job thread has to recalculate its wakeup for the new deadline\n                self.__job_thread_wakeup()\n", ""))
+M("mpg_hash_without_dest", ["C11"], "multi-PG buffers for different destinations share a hash",
+  ("j1939/j1939_22.py", "        return ((frame_format & 0xFF) << 24) | ((msg_counter & 0xFF) << 16) | ((src_address & 0xFF) << 8) | (dest_address & 0xFF)", "        return ((frame_format & 0xFF) << 24) | ((msg_counter & 0xFF) << 16) | ((src_address & 0xFF) << 8) | 0xFF"))
+M("mpg_hash_without_format", ["C11"], "multi-PG buffers for FEFF and FBFF share a hash",
+  ("j1939/j1939_22.py", "        return ((frame_format & 0xFF) << 24) | ((msg_counter & 0xFF) << 16) | ((src_address & 0xFF) << 8) | (dest_address & 0xFF)", "        return (3 << 24) | ((msg_counter & 0xFF) << 16) | ((src_address & 0xFF) << 8) | (dest_address & 0xFF)"))
+M("mpg_padding_aa_first", ["C11"], "padding starts with 0xAA (TOS 5) instead of a zero service header",
+  ("j1939/j1939_22.py", "            if padding_cnt < 3:\n                data.append(0)", "            if padding_cnt < 0:\n                data.append(0)"))
+M("mpg_deadline_not_lowered", ["C11"], "a later group with a shorter limit does not pull the deadline forward",
+  ("j1939/j1939_22.py", "                        if self._multi_pg_snd_buffer[hash]['deadline'] > deadline:", "                        if False:"))
+M("mpg_cpgn_dp_lost", ["C11"], "contained PGN loses the data page bit in the header",
+  ("j1939/j1939_22.py", "data.append( (cpg['tos'] << 5) | (cpg['tf'] << 2) | ((cpg['cpgn'] >> 16) & 0x3) )", "data.append( (cpg['tos'] << 5) | (cpg['tf'] << 2) )"))
+M("mpg_unpack_stops_early", ["C11"], "unpacking loop stops when 8 or fewer bytes remain",
+  ("j1939/j1939_22.py", "        while True:\n            if len(data) <= 4:\n                break", "        while True:\n            if len(data) <= 8:\n                break"))
